@@ -1679,7 +1679,10 @@ Examples:
                     try: x[i] += offset
                     except IndexError: pass
                 indx = trac.intersection(indx)
-                pairs = [m for m in pairs if m[0] in indx]
+                indx = [m for m in pairs if m[0] in indx]
+                if len(indx) == len(pairs): #NOTE: else loops forever
+                    raise ValueError("mask contains a cycle")
+                pairs = indx
             return f(x, *args, **kwds)
         func.__wrapped__ = f   #XXX: getattr(f, '__wrapped__', f) ?
         func.__doc__ = f.__doc__
